@@ -143,13 +143,14 @@ def tail1 (b : Bytes) : String := String.ofList ((b.drop 1).map fun n => Char.of
 def lcOp (ks : List SignerKey) : String :=
   let s1 := ks.foldl lcSaveSigner ⟨[], [], [], []⟩
   let g := exportLc s1
-  if g.signers.isEmpty then "exp=- map=-" else
+  if g.signers.isEmpty then "exp=- map=- orig=-" else
   match importLc { clients := [], signers := g.signers } with
   | none => "invalid"
   | some t =>
     let es := g.signers.map fun k => s!"{tail1 k.1}:{tail1 k.2.1}:{k.2.2}"
     let ms := t.h2s.map fun e => s!"{tail1 e.1.1}:{e.1.2}>{tail1 e.2}"
-    s!"exp={",".intercalate es} map={",".intercalate (sortStr ms)}"
+    let os := s1.h2s.map fun e => s!"{tail1 e.1.1}:{e.1.2}>{tail1 e.2}"
+    s!"exp={",".intercalate es} map={",".intercalate (sortStr ms)} orig={",".intercalate (sortStr os)}"
 
 -- ---------------------------------------------------------------- sponsorship
 def weight! (s : String) : Spons.GP :=
